@@ -5,7 +5,7 @@
    "1 +" is part of the statement.  Only final statements; proofs live in Proofs/FormulaTextPairs.v. *)
 From Verif Require Import Base Tokens Scanner Parser Grammar ParserSound ParserComplete ScannerProofs Driver
   FrontEnd FormulaText FormulaTextPairs.
-From Verif Require Tie.
+From Verif Require Tie Generated.
 Local Close Scope Qc_scope.
 Local Close Scope Q_scope.
 Local Open Scope string_scope.
@@ -46,6 +46,20 @@ Theorem C01_pairs_tree_shape : forall o1 o2 a b c, In o1 binops -> In o2 binops 
            else ONE [+] (Bin (Bin A k1 x1 B) k2 x2 C)).
 Proof. exact pair_tree_shape. Qed.
 
+(* the table of the specification is the chain of binary levels REGENERATED from parser.py on every run
+   (Generated.gen_chain, loosest first): the operators are exactly the kinds of the chain, in its order, and the
+   level of an operator is the index of its row.  A change of precedence in the source changes gen_chain and
+   breaks these obligations (and Tie.tie_chain) before any case is run. *)
+Theorem C01_pairs_operators_are_the_source_chain : map fst binops = List.concat Generated.gen_chain.
+Proof. reflexivity. Qed.
+
+Theorem C01_pairs_levels_are_the_source_rows :
+  map (map level) Generated.gen_chain = map (fun i => List.repeat i (List.length (List.nth i Generated.gen_chain []))) (List.seq 0 (List.length Generated.gen_chain)).
+Proof. reflexivity. Qed.
+
+Theorem C01_pairs_implicit_plus_is_the_source_addition_level : level PLUS = Generated.gen_addition_index.
+Proof. reflexivity. Qed.
+
 (* non-vacuity: a concrete instance through the real scanner and parser *)
 Example C01_pairs_example :
   front_end "x1>=np.log**z_2" = Ok (Bin (ONE [+] V "x1") GREATER_EQUAL ">=" (V "np.log" [**] V "z_2")).
@@ -56,3 +70,6 @@ Print Assumptions C01_pairs_tight.
 Print Assumptions C01_pairs_never_refused.
 Print Assumptions C01_pairs_tree_shape.
 Print Assumptions C01_pairs_example.
+Print Assumptions C01_pairs_operators_are_the_source_chain.
+Print Assumptions C01_pairs_levels_are_the_source_rows.
+Print Assumptions C01_pairs_implicit_plus_is_the_source_addition_level.
